@@ -186,3 +186,5 @@ func oneLine(s string) string {
 	s = strings.ReplaceAll(s, "\t", "")
 	return s
 }
+
+func getenv(k string) string { return os.Getenv(k) }
